@@ -495,6 +495,6 @@ def check_C20(ctx, rep):
 
 
 REGISTRY = {
-    'C01': check_C01, 'C03': check_C03, 'C04': check_C04, 'C05': check_C05, 'C06': check_C06, 'C08': check_C08, 'C09': check_C09, 'C10': check_C10,
+    'C01': check_C01, 'C03': check_C03, 'C04': check_C04, 'C05': check_C05, 'C06': check_C06, 'C07': check_C07, 'C08': check_C08, 'C09': check_C09, 'C10': check_C10,
     'C11': check_C11, 'C12': check_C12, 'C13': check_C13, 'C16': check_C16, 'C17': check_C17, 'C14': check_C14, 'C15': check_C15, 'C18': check_C18, 'C19': check_C19, 'C20': check_C20,
 }
